@@ -252,6 +252,17 @@ def generate():
         for tag, w in zip(("enforce", "audit", "other", "none"), words):
             S("kk_word_%s_%s" % (var, tag), w, f)
     S("kk_state_format_sep", regex_str(f, r"format!\(\"\{\}([^{}\"]*)\{\}\1\{\}\",\s*wireserver,\s*imds,\s*hostga\)", "state format string"), f)
+    # serde field names of `pub struct Key`, in declaration (= serialisation) order
+    kstruct = strip_comments(regex_str(f, r"pub struct Key \{(.*?)\n\}", "struct Key"))
+    kfields = re.findall(r"^\s*(?:pub\s+)?(\w+)\s*:\s*([^,\n]+),", kstruct, flags=re.M)
+    if len(kfields) != 5 or [t.strip() for _, t in kfields] != ["String", "Option<u32>", "String", "String", "String"]:
+        raise Missing("%s: struct Key is no longer (String, Option<u32>, String, String, String): %r" % (f, kfields))
+    for i, (n, _) in enumerate(kfields):
+        S("kk_key_field_%d" % i, n, f)
+    f = "proxy_agent/src/key_keeper.rs"
+    S("kk_key_file_ext", regex_str(f, r"else\s*\{\s*key_file\.set_extension\(\"(\w+)\"\);\s*misc_helpers::json_write_to_file", "key file extension"), f)
+    f = "proxy_agent_shared/src/misc_helpers.rs"
+    S("kk_temp_file_ext", regex_str(f, r"pub fn json_write_to_file.*?with_extension\(\"(\w+)\"\)", "temp file extension"), f)
 
     # ---- setup tool paths and names (C17) ----
     f = "proxy_agent_setup/src/linux.rs"
